@@ -142,8 +142,10 @@ async fn scenario(rng: &mut Rng, rep: &mut Report, ops: usize) {
     rep.count("scenarios");
     let hb = params.heartbeat;
     let mut force_short_bundle = false;
+    let mut force_conflict = false;
     for step in 0..ops {
-        let op = if force_short_bundle { 60 } else { rng.below(100) };
+        let op = if force_short_bundle { 60 } else if force_conflict { 45 } else { rng.below(100) };
+        force_conflict = false;
         let gp = params.gp;
         let ledger = w.b.store.ledger(&w.tip);
         let opname: String;
@@ -306,6 +308,27 @@ async fn scenario(rng: &mut Rng, rep: &mut Report, ops: usize) {
                         return;
                     }
                     opname = "bundle-none".into();
+                }
+                Ok(Some(mut block)) if !short_gap && rng.chance(1, 5) => {
+                    // the node's own block fails on addition (its burn fee is off by one, re-signed):
+                    // the transactions go back to the pool, with their reservations
+                    rep.count("own_blocks_made_to_fail");
+                    block.burnfee += 1;
+                    let me = w.b.actors[1].clone();
+                    crate::props::c04::reseal(&mut block, &me, false);
+                    let bytes = block_bytes(&block);
+                    let r = w.node.add_bytes(&bytes).await;
+                    if matches!(r, Some(Added::Ok(_))) {
+                        rep.note("a block with a wrong burn fee was accepted by its own producer");
+                        return;
+                    }
+                    let pool_after: BTreeSet<Vec<u8>> = { w.node.mempool.read().await.transactions.keys().map(|k| k.to_vec()).collect() };
+                    let lost_normal = pool_before.iter().filter(|s| !pool_after.contains(*s)).count();
+                    if lost_normal > 0 {
+                        rep.count("failed_own_block_lost_pooled_transactions");
+                    }
+                    force_conflict = true;
+                    opname = "own-block-failed".into();
                 }
                 Ok(Some(block)) => {
                     rep.count("bundles");
